@@ -426,20 +426,53 @@ End Frame.
    of the form  forall .., P s -> P (primitive update of s)).  Stops at the
    first expression it knows nothing about. *)
 Ltac fr_lemmas P :=
-  first
-  [ apply (fr_get_or_create_invocation P) | apply (fr_remove_if_empty P) | apply (fr_increment_executing P)
-  | apply (fr_decrement_executing P) | apply (fr_update_first_priority P) | apply (fr_enqueue P)
-  | apply (fr_remove_queued_from_invocation P) | apply (fr_clear_last_invocation P) | apply (fr_set_last_invocation P)
-  | apply (fr_dequeue_worker P) | apply (fr_maybe_dequeue P) | apply (fr_wake_up P) | apply (fr_assign_unqueued P)
-  | apply (fr_report_non_final_stage_change P) | apply (fr_assign_queued P) | apply (fr_assign_next_queued_task P)
-  | apply (fr_schedule P) | apply (fr_new_operation P) | apply (fr_maybe_start_cleanup P) | apply (fr_complete_task P)
-  | apply (fr_operation_remove P) | apply (fr_cancel_all_queued P) | apply (fr_scq_remove P) | apply (fr_mark_terminating P)
-  | apply (fr_remove_stale_worker P) | apply (fr_run_entry P) | apply (fr_cleanup_run P) | apply (fr_enter P)
-  | apply (fr_stream_iter P) | apply (fr_wait_execution_begin P) | apply (fr_stream_return P) | apply (fr_ret P)
-  | apply (fr_exec_start P) | apply (fr_finish_sync P) | apply (fr_sync_return_exec P) | apply (fr_sync_return_idle P)
-  | apply (fr_sync_return_err P) | apply (fr_sync_loop P) | apply (fr_get_next_task P) | apply (fr_get_current_or_next P)
-  | apply (fr_add_scq P) | apply (fr_add_pq P) | apply (fr_sync_start P) | apply (fr_kill_lookup P)
-  | apply (fr_terminate_fold P) ].
+  lazymatch goal with
+  | |- _ (get_or_create_invocation _ _ _) => apply (fr_get_or_create_invocation P)
+  | |- _ (fst (remove_if_empty _ _)) => apply (fr_remove_if_empty P)
+  | |- _ (increment_executing _ _ _) => apply (fr_increment_executing P)
+  | |- _ (decrement_executing _ _ _) => apply (fr_decrement_executing P)
+  | |- _ (update_first_priority _ _) => apply (fr_update_first_priority P)
+  | |- _ (enqueue _ _) => apply (fr_enqueue P)
+  | |- _ (remove_queued_from_invocation _ _) => apply (fr_remove_queued_from_invocation P)
+  | |- _ (clear_last_invocation _ _) => apply (fr_clear_last_invocation P)
+  | |- _ (set_last_invocation _ _ _) => apply (fr_set_last_invocation P)
+  | |- _ (dequeue_worker _ _) => apply (fr_dequeue_worker P)
+  | |- _ (maybe_dequeue _ _) => apply (fr_maybe_dequeue P)
+  | |- _ (wake_up _ _) => apply (fr_wake_up P)
+  | |- _ (assign_unqueued _ _ _ _) => apply (fr_assign_unqueued P)
+  | |- _ (report_non_final_stage_change _ _) => apply (fr_report_non_final_stage_change P)
+  | |- _ (assign_queued _ _ _ _) => apply (fr_assign_queued P)
+  | |- _ (fst (assign_next_queued_task _ _)) => apply (fr_assign_next_queued_task P)
+  | |- _ (schedule _ _) => apply (fr_schedule P)
+  | |- _ (fst (new_operation _ _ _ _ _)) => apply (fr_new_operation P)
+  | |- _ (maybe_start_cleanup _ _) => apply (fr_maybe_start_cleanup P)
+  | |- _ (complete_task _ _ _ _) => apply (fr_complete_task P)
+  | |- _ (operation_remove _ _) => apply (fr_operation_remove P)
+  | |- _ (cancel_all_queued _ _ _) => apply (fr_cancel_all_queued P)
+  | |- _ (scq_remove _ _) => apply (fr_scq_remove P)
+  | |- _ (mark_terminating _ _) => apply (fr_mark_terminating P)
+  | |- _ (remove_stale_worker _ _ _) => apply (fr_remove_stale_worker P)
+  | |- _ (run_entry _ _) => apply (fr_run_entry P)
+  | |- _ (cleanup_run _ _) => apply (fr_cleanup_run P)
+  | |- _ (enter _ _) => apply (fr_enter P)
+  | |- _ (stream_iter _ _ _) => apply (fr_stream_iter P)
+  | |- _ (wait_execution_begin _ _ _) => apply (fr_wait_execution_begin P)
+  | |- _ (stream_return _ _ _ _) => apply (fr_stream_return P)
+  | |- _ (ret _ _ _) => apply (fr_ret P)
+  | |- _ (exec_start _ _ _) => apply (fr_exec_start P)
+  | |- _ (finish_sync _ _ _) => apply (fr_finish_sync P)
+  | |- _ (sync_return_exec _ _ _) => apply (fr_sync_return_exec P)
+  | |- _ (sync_return_idle _ _ _) => apply (fr_sync_return_idle P)
+  | |- _ (sync_return_err _ _ _ _) => apply (fr_sync_return_err P)
+  | |- _ (sync_loop _ _ _) => apply (fr_sync_loop P)
+  | |- _ (get_next_task _ _ _ _ _) => apply (fr_get_next_task P)
+  | |- _ (get_current_or_next _ _ _ _ _) => apply (fr_get_current_or_next P)
+  | |- _ (add_scq _ _ _) => apply (fr_add_scq P)
+  | |- _ (add_pq _ _ _ _ _) => apply (fr_add_pq P)
+  | |- _ (sync_start _ _ _) => apply (fr_sync_start P)
+  | |- _ (kill_lookup _ _ _ _) => apply (fr_kill_lookup P)
+  | |- _ (fst (fold_left _ _ (_, _))) => apply (fr_terminate_fold P)
+  end.
 
 Ltac is_prim_head f :=
   lazymatch f with
@@ -448,13 +481,28 @@ Ltac is_prim_head f :=
   | set _ _ => idtac
   end.
 
+Ltac innermost_nonset s := lazymatch s with set _ _ ?s' => innermost_nonset s' | _ => s end.
+
 Ltac fr_prim P tac :=
   lazymatch goal with
-  | |- P (?f ?s) =>
-    is_prim_head f;
-    let H := fresh "Hprim" in
-    assert (H : forall s0, P s0 -> P (f s0)) by tac;
-    apply H; clear H
+  | |- P ?e =>
+    lazymatch e with
+    | set _ _ ?s1 =>
+      (* raw record updates: abstract the state they are applied to, everywhere *)
+      let E := innermost_nonset s1 in
+      let e' := eval pattern E in e in
+      lazymatch e' with
+      | ?F _ =>
+        let H := fresh "Hprim" in
+        assert (H : forall s0, P s0 -> P (F s0)) by (cbv beta; tac);
+        apply (H E); clear H
+      end
+    | ?f ?s =>
+      is_prim_head f;
+      let H := fresh "Hprim" in
+      assert (H : forall s0, P s0 -> P (f s0)) by tac;
+      apply H; clear H
+    end
   end.
 
 Ltac fr_go P tac :=
